@@ -314,6 +314,13 @@ func PrepareForPackager(
 	res := make(Contents, 0, len(contentMap))
 
 	for _, content := range contentMap {
+		// a file, symlink etc. can not share its path with a directory, nor
+		// can anything be placed below it
+		if !content.IsDir() {
+			if dir, ok := contentMap[NormalizeAbsoluteDirPath(content.Destination)]; ok {
+				return nil, contentCollisionError(dir, content)
+			}
+		}
 		res = append(res, content)
 	}
 
